@@ -102,7 +102,7 @@ func runC13(c c13Case) Result {
 				scrapes[i] = ts.scrape(30 * time.Second)
 				return
 			}
-			results[i] = ts.do(c.Clients[i].Req.Method, c.Clients[i].Req.bytes())
+			results[i] = ts.doReq(c.Clients[i].Req)
 		}(i)
 	}
 	wg.Wait()
